@@ -23,7 +23,8 @@ Units(a, b) == [i \in 1..(b - a) |-> a + i - 1]
 Tr == Traces[t]
 IsPrefix(s, r) == Len(s) <= Len(r) /\ s = SubSeq(r, 1, Len(s))
 Flag(clause) == IF bad = "" THEN clause ELSE bad
-TermOf(r) == CASE r = "eof" -> "eof" [] r \in {"reset", "pipe"} -> "fatal" [] r = "timeout" -> "timeout" [] OTHER -> ""
+\* sendall_error: a blocking sendall gave up with an error that a send loop would retry; for sendall every error is final
+TermOf(r) == CASE r = "eof" -> "eof" [] r \in {"reset", "pipe", "sendall_error"} -> "fatal" [] r = "timeout" -> "timeout" [] OTHER -> ""
 
 Init == t \in 1..NT /\ l = 1 /\ got = <<>> /\ term = "" /\ bad = ""
 
